@@ -165,6 +165,9 @@ class Report(object):
             "model_checking_runs": self.mc_runs,
             "undef_skipped_values": self.undef,
             "excused_by_known_finding": dict(self.known),
+            "excused_example": {i: {"text": [o.get("text") for o in e["case"].get("objs", [])], "events": e["case"].get("events", [])[:12],
+                                    "clause": e["verdict"].get("clause"), "step": e["verdict"].get("step")}
+                                for i, e in self.known_example.items()},
             "clean": self.traces - sum(self.known.values()) - len(self.violations),
         }
         cov.update(self.extra)
